@@ -31,6 +31,7 @@ import (
 	"sort"
 	"strings"
 	"testing"
+	"time"
 
 	pb "github.com/refraction-networking/conjure/proto"
 	"pgregory.net/rapid"
@@ -420,5 +421,228 @@ func TestVerif_C14_history(t *testing.T) {
 	}
 	rapid.Check(t, func(rt *rapid.T) {
 		c14HistCheck(rt, rec, env, c14GenHist(rt))
+	})
+}
+
+// Loader reload histories ---------------------------------------------------------------------------
+//
+// "Stays inside the configured subnets" is about the configuration that is in force: a subnet file
+// that was rewritten and loaded again must select from its NEW content. A reload history writes
+// version A of a file, loads it, rewrites the SAME path with version B, loads again, and so on; after
+// every load the loaded selector must select exactly what a selector built directly from the
+// version just written selects. The versions are rendered fixed-width, so that a rewrite can keep the
+// byte length ("10.1.0.0/24" -> "10.2.0.0/24", "true " -> "false"), and the modification time is
+// pinned to one instant / kept within one second / left to the file system, as tools and fast
+// edit-and-SIGHUP sequences do.
+
+type c14ReloadBlock struct {
+	Weight int    `json:"weight"` // 1-9
+	Rand   int    `json:"rand"`   // -1 no key, 0 false, 1 true
+	A      int    `json:"a"`      // 1-9: 10.A.B.0/24 and 2001:db8:A::/64
+	B      int    `json:"b"`      // 1-9
+	Pad    string `json:"pad,omitempty"`
+}
+
+type c14ReloadGen struct {
+	Gen    uint             `json:"gen"`
+	Blocks []c14ReloadBlock `json:"blocks"`
+}
+
+type c14ReloadCase struct {
+	Versions [][]c14ReloadGen `json:"versions"`
+	Mtime    string           `json:"mtime"` // pinned: every version gets the same mtime; same-second: mtimes differ by < 1 s within one second; natural: untouched
+	Seed     vh.Hex           `json:"seed"`
+}
+
+func c14ReloadToml(v []c14ReloadGen) string {
+	var sb strings.Builder
+	sb.WriteString("[Networks]\n")
+	for _, g := range v {
+		fmt.Fprintf(&sb, "  [Networks.%d]\n    Generation = %d\n", g.Gen, g.Gen)
+		for _, b := range g.Blocks {
+			fmt.Fprintf(&sb, "    [[Networks.%d.WeightedSubnets]]\n      Weight = %d\n", g.Gen, b.Weight)
+			switch b.Rand {
+			case 0:
+				sb.WriteString("      RandomizeDstPort = false\n")
+			case 1:
+				sb.WriteString("      RandomizeDstPort = true \n")
+			}
+			fmt.Fprintf(&sb, "      Subnets = [\"10.%d.%d.0/24\", \"2001:db8:%d::/64\"]%s\n", b.A, b.B, b.A, b.Pad)
+		}
+	}
+	return sb.String()
+}
+
+func c14ReloadConfig(v []c14ReloadGen) c14Config {
+	c := c14Config{}
+	for _, g := range v {
+		gc := c14GenCfg{Gen: g.Gen, Groups: []c14Group{}}
+		for _, b := range g.Blocks {
+			gc.Groups = append(gc.Groups, c14Group{Weight: int64(b.Weight), Rand: b.Rand, Subnets: []string{fmt.Sprintf("10.%d.%d.0/24", b.A, b.B), fmt.Sprintf("2001:db8:%d::/64", b.A)}})
+		}
+		c.Gens = append(c.Gens, gc)
+	}
+	return c
+}
+
+var c14ReloadInstant = time.Date(2024, 3, 9, 12, 0, 0, 0, time.UTC)
+
+func c14ReloadCheck(t vh.Fataler, rec *vh.Rec, env *c14Env, c c14ReloadCase) {
+	if len(c.Versions) < 2 {
+		t.Fatalf("harness problem: a reload case needs two versions")
+	}
+	path := filepath.Join(env.dir, fmt.Sprintf("c14_reload_%d.toml", env.n.Add(1)))
+	defer os.Remove(path)
+	classes := map[string]bool{"mtime:" + c.Mtime: true}
+	lens := map[int]bool{}
+	var earlier []*c14Built
+	nontrivial := false
+	for vi, v := range c.Versions {
+		txt := c14ReloadToml(v)
+		if vi > 0 && lens[len(txt)] {
+			classes["rewrite-keeps-byte-length"] = true
+			if c.Mtime != "natural" {
+				nontrivial = true
+			}
+		}
+		lens[len(txt)] = true
+		if err := os.WriteFile(path, []byte(txt), 0o644); err != nil {
+			t.Fatalf("harness problem: %v", err)
+		}
+		switch c.Mtime {
+		case "pinned":
+			if err := os.Chtimes(path, c14ReloadInstant, c14ReloadInstant); err != nil {
+				t.Fatalf("harness problem: %v", err)
+			}
+		case "same-second":
+			mt := c14ReloadInstant.Add(time.Duration(vi) * 100 * time.Millisecond)
+			if err := os.Chtimes(path, mt, mt); err != nil {
+				t.Fatalf("harness problem: %v", err)
+			}
+		}
+		sel, err := SubnetsFromTomlFile(path)
+		if err != nil {
+			t.Fatalf("harness problem: loading generated TOML: %v\n%s", err, txt)
+		}
+		loaded := &c14Built{sel: sel}
+		direct := &c14Built{sel: c14Direct(c14ReloadConfig(v))}
+		gens := map[uint]bool{}
+		for _, vv := range c.Versions {
+			for _, g := range vv {
+				gens[g.Gen] = true
+			}
+		}
+		for g := range sel.Networks {
+			gens[g] = true
+		}
+		var gl []uint
+		for g := range gens {
+			gl = append(gl, g)
+		}
+		sort.Slice(gl, func(i, j int) bool { return gl[i] < gl[j] })
+		for _, g := range gl {
+			for qi := 0; qi < 3; qi++ {
+				for _, lv := range []uint{2, 1} {
+					for _, fam := range []string{c14FamV4, c14FamV6} {
+						q := c14Query{Entry: c14EntrySelect, Seed: append(append([]byte{}, c.Seed...), byte(qi)), Gen: g, LibVer: lv, Fam: fam}
+						o, want := c14Call(loaded, q), c14Call(direct, q)
+						if o.same(want) {
+							continue
+						}
+						key := "reload:selection-differs-from-file-content"
+						for _, e := range earlier {
+							if o.same(c14Call(e, q)) {
+								key = "reload:stale-configuration"
+							}
+						}
+						rec.Case(nontrivial, vh.Digest(c), c, c14SortedKeys(classes)...)
+						rec.Violation(t, key, c, "after writing version %d of the file and loading it (mtime %s, %d bytes): %s gives %v, the content just written gives %v; file now:\n%s", vi, c.Mtime, len(txt), c14QStr(q), o, want, txt)
+						return
+					}
+				}
+			}
+		}
+		earlier = append(earlier, direct)
+	}
+	rec.Case(nontrivial, vh.Digest(c), c, c14SortedKeys(classes)...)
+	rec.ClassN("loads", int64(len(c.Versions)))
+}
+
+func c14GenReload(rt *rapid.T) c14ReloadCase {
+	c := c14ReloadCase{Seed: c14Bytes(rt, 15, "seed")}
+	c.Mtime = rapid.SampledFrom([]string{"pinned", "same-second", "natural", "pinned"}).Draw(rt, "mtime")
+	digit := func(l string) int { return rapid.IntRange(1, 9).Draw(rt, l) }
+	ng := rapid.IntRange(1, 3).Draw(rt, "ngens")
+	pool := []uint{1, 957, 5, 0}
+	var v0 []c14ReloadGen
+	for i := 0; i < ng; i++ {
+		g := c14ReloadGen{Gen: pool[i]}
+		nb := rapid.IntRange(1, 2).Draw(rt, "nblocks")
+		for j := 0; j < nb; j++ {
+			g.Blocks = append(g.Blocks, c14ReloadBlock{Weight: digit("w"), Rand: rapid.SampledFrom([]int{1, 0, -1}).Draw(rt, "rand"), A: digit("a"), B: digit("b")})
+		}
+		v0 = append(v0, g)
+	}
+	c.Versions = append(c.Versions, v0)
+	nv := rapid.IntRange(1, 3).Draw(rt, "nrewrites")
+	for k := 0; k < nv; k++ {
+		prev := c.Versions[len(c.Versions)-1]
+		var nxt []c14ReloadGen
+		for _, g := range prev {
+			ng := c14ReloadGen{Gen: g.Gen}
+			for _, b := range g.Blocks {
+				nb := b
+				switch rapid.SampledFrom([]string{"subnet", "flag", "both", "weight", "grow", "same"}).Draw(rt, "edit") {
+				case "subnet":
+					nb.A, nb.B = digit("a2"), digit("b2")
+				case "flag":
+					if nb.Rand >= 0 {
+						nb.Rand = 1 - nb.Rand
+					}
+				case "both":
+					nb.A = digit("a3")
+					if nb.Rand >= 0 {
+						nb.Rand = 1 - nb.Rand
+					}
+				case "weight":
+					nb.Weight = digit("w2")
+				case "grow": // an edit that changes the length
+					nb.Pad += " # edited"
+					nb.A = digit("a4")
+				}
+				ng.Blocks = append(ng.Blocks, nb)
+			}
+			nxt = append(nxt, ng)
+		}
+		c.Versions = append(c.Versions, nxt)
+	}
+	return c
+}
+
+func TestVerif_C14_reload(t *testing.T) {
+	rec := vh.NewRec("C14", "reload", "loader reload histories: a generated subnet file (1-3 generations incl. 0, 1-2 blocks each, rendered fixed-width) is written and loaded through SubnetsFromTomlFile, then 1-3 times rewritten at the SAME path (subnet digits, 'true '<->'false', weight digit changed so that the byte length stays the same; sometimes an edit that changes the length) and loaded again, with the modification time pinned to one instant, kept within one second, or left to the file system; after every load 12 selections per generation (3 seeds x library versions 2,1 x v4/v6) must equal those of a selector built directly from the version just written. Fixed histories first. one evaluation = one reload history; non-trivial = a rewrite kept the byte length while the mtime did not leave the second; distinct = distinct history.")
+	defer rec.Flush()
+	rec.Require("rewrite-keeps-byte-length", "mtime:pinned", "mtime:same-second", "mtime:natural")
+	env := &c14Env{dir: t.TempDir()}
+	if p := vh.ReplayFile(); p != "" {
+		var c c14ReloadCase
+		if _, _, err := vh.LoadReplay(p, &c); err != nil {
+			t.Fatal(err)
+		}
+		c14ReloadCheck(t, rec, env, c)
+		return
+	}
+	if idx, _ := vh.Shard(); idx == 0 {
+		seed := vh.Hex{0xc1, 0x4c, 0x06, 0x01, 0x5a, 0x3c, 0x99, 0x10}
+		a := []c14ReloadGen{{Gen: 1, Blocks: []c14ReloadBlock{{Weight: 9, Rand: 1, A: 1, B: 1}, {Weight: 1, Rand: 0, A: 3, B: 1}}}}
+		b := []c14ReloadGen{{Gen: 1, Blocks: []c14ReloadBlock{{Weight: 9, Rand: 1, A: 2, B: 1}, {Weight: 1, Rand: 0, A: 4, B: 1}}}}
+		f := []c14ReloadGen{{Gen: 1, Blocks: []c14ReloadBlock{{Weight: 9, Rand: 0, A: 1, B: 1}, {Weight: 1, Rand: 1, A: 3, B: 1}}}}
+		for _, mt := range []string{"pinned", "same-second", "natural"} {
+			c14ReloadCheck(t, rec, env, c14ReloadCase{Versions: [][]c14ReloadGen{a, b}, Mtime: mt, Seed: seed})
+			c14ReloadCheck(t, rec, env, c14ReloadCase{Versions: [][]c14ReloadGen{a, f, a}, Mtime: mt, Seed: seed})
+		}
+	}
+	rapid.Check(t, func(rt *rapid.T) {
+		c14ReloadCheck(rt, rec, env, c14GenReload(rt))
 	})
 }
